@@ -553,6 +553,171 @@ def memo_merge(acc, part):
                           f'{v[2]} with identical arguments returned a different result in history {u[1]} than in {v[1]}')
 
 
+# ---- purity probes: one public call at a time, a fixed catalogue ------------------------------------------------
+def _arrays_in(obj, out=None):
+    out = [] if out is None else out
+    if isinstance(obj, np.ndarray):
+        out.append(obj)
+    elif isinstance(obj, (list, tuple)):
+        for o in obj:
+            _arrays_in(o, out)
+    elif isinstance(obj, dict):
+        for o in obj.values():
+            _arrays_in(o, out)
+    elif hasattr(obj, 'wave') and hasattr(obj, 'value'):
+        out += [np.asarray(obj.wave), np.asarray(obj.value)]
+    elif hasattr(obj, 'data') and isinstance(getattr(obj, 'data'), list):        # Wavefront
+        for f in obj.data:
+            out.append(np.asarray(f.data))
+    elif hasattr(obj, 'amplitude') and hasattr(obj, 'opd'):                        # Plane
+        out += [np.asarray(obj.amplitude), np.asarray(obj.opd), np.asarray(obj.mask)]
+    return out
+
+
+def probe_catalogue(seed):
+    """name -> (build() -> (callable, args dict), views_allowed)"""
+    import lentil
+    import sys
+    rad = sys.modules['lentil.radiometry']
+    R = lambda shape, tag, lo=0.2, hi=2.0: rm.generic_real(shape, seed, tag=tag, lo=lo, hi=hi)
+    mask = lambda: (lentil.circle((9, 8), 3.25, antialias=False))
+    spec = lambda: rad.Spectrum(np.array([400., 450., 500., 600., 700.]), R((5,), 1), waveunit='nm')
+    specum = lambda: rad.Spectrum(np.array([0.4, 0.5, 0.6, 0.7]), R((4,), 2), waveunit='um', valueunit='flam')
+    pupil = lambda: lentil.Pupil(amplitude=R((6, 5), 3), opd=R((6, 5), 4, -1, 1) * WL, pixelscale=DX, focal_length=Z)
+    wf = lambda: lentil.Wavefront(WL) * pupil()
+    C = {
+        'dft2': lambda: (lentil.fourier.dft2, dict(f=rm.generic_complex((4, 5), seed, 1), alpha=(0.2, 0.125), shape=(5, 6), shift=(0.5, -1), offset=(1, 0))),
+        'idft2': lambda: (lentil.fourier.idft2, dict(F=rm.generic_complex((4, 5), seed, 2), alpha=(0.25, 0.2))),
+        'pad': lambda: (lentil.pad, dict(array=R((3, 4), 5), shape=(6, 5))),
+        'pad-crop': lambda: (lentil.pad, dict(array=R((6, 5), 6), shape=(3, 4))),
+        'rebin': lambda: (lentil.rebin, dict(img=R((4, 6), 7), factor=2)),
+        'rescale': lambda: (lentil.rescale, dict(img=R((8, 8), 8), scale=1.5)),
+        'rescale-identity': lambda: (lentil.rescale, dict(img=R((8, 8), 8), scale=1)),
+        'normalize_power': lambda: (lentil.normalize_power, dict(array=R((4, 4), 9), power=2)),
+        'boundary': lambda: (lentil.boundary, dict(x=mask())),
+        'centroid': lambda: (lentil.centroid, dict(img=mask())),
+        'circle': lambda: (lentil.circle, dict(shape=(9, 8), radius=3.25, shift=(1, 0))),
+        'hexagon': lambda: (lentil.hexagon, dict(shape=(9, 9), radius=3.25, shift=(0, 1))),
+        'rectangle': lambda: (lentil.rectangle, dict(shape=(9, 8), width=4, height=3, shift=(1, -1))),
+        'rectangle-rot': lambda: (lentil.rectangle, dict(shape=(9, 8), width=4, height=3, shift=(1, -1), angle=20)),
+        'spider': lambda: (lentil.spider, dict(shape=(9, 9), width=1.5, angle=30)),
+        'hex_segments': lambda: (lentil.hex_segments, dict(rings=1, seg_radius=4.5, seg_gap=1)),
+        'zernike': lambda: (lentil.zernike, dict(mask=mask(), index=5)),
+        'zernike-coords': lambda: (lentil.zernike, dict(mask=mask(), index=7, rho=lentil.zernike_coordinates(mask())[0], theta=lentil.zernike_coordinates(mask())[1])),
+        'zernike_compose': lambda: (lentil.zernike_compose, dict(mask=mask(), coeffs=np.array([0.1, 0.2, -0.3, 0.4]))),
+        'zernike_basis': lambda: (lentil.zernike_basis, dict(mask=mask(), modes=np.array([2, 4, 3]))),
+        'zernike_fit': lambda: (lentil.zernike_fit, dict(opd=R((9, 8), 10), mask=mask(), modes=[1, 2, 3])),
+        'zernike_remove': lambda: (lentil.zernike_remove, dict(opd=R((9, 8), 10), mask=mask(), modes=[2, 3])),
+        'zernike_coordinates': lambda: (lentil.zernike_coordinates, dict(mask=mask())),
+        'power_spectrum': lambda: (lentil.power_spectrum, dict(mask=mask(), pixelscale=1e-3, rms=1e-9, half_power_freq=5, exp=3, seed=3)),
+        'translation_defocus': lambda: (lentil.translation_defocus, dict(mask=mask(), f_number=10, translation=1e-4)),
+        'jitter': lambda: (lentil.jitter, dict(img=R((5, 6), 11), scale=1.25)),
+        'smear': lambda: (lentil.smear, dict(img=R((5, 6), 11), distance=2.0, angle=30)),
+        'pixel': lambda: (lentil.detector.pixel, dict(img=R((5, 6), 11), oversample=2)),
+        'pixelate': lambda: (lentil.detector.pixelate, dict(img=R((6, 6), 11), oversample=2)),
+        'collect_charge': lambda: (lentil.detector.collect_charge, dict(img=R((2, 3, 3), 12, 0, 40), wave=np.array([450., 650.]), qe=np.array([0.5, 0.25]))),
+        'collect_charge-spectrum': lambda: (lentil.detector.collect_charge, dict(img=R((2, 3, 3), 12, 0, 40), wave=np.array([450., 650.]), qe=spec())),
+        'collect_charge_bayer': lambda: (lentil.detector.collect_charge_bayer, dict(img=R((2, 4, 4), 12, 0, 40), wave=np.array([450., 650.]), qe_red=0.5, qe_green=np.array([0.2, 0.3]), qe_blue=spec(), bayer_pattern='RGGB', oversample=2)),
+        'adc': lambda: (lentil.detector.adc, dict(img=np.array([[3.0, 150.0], [99.0, 7.5]]), gain=[2.0 ** -6, 0.5], saturation_capacity=100)),
+        'adc-cube-gain': lambda: (lentil.detector.adc, dict(img=np.array([[3.0, 150.0], [99.0, 7.5]]), gain=np.stack([np.full((2, 2), 2.0 ** -6), np.full((2, 2), 0.5)]))),
+        'shot_noise': lambda: (lentil.detector.shot_noise, dict(img=R((3, 4), 13, 0, 50), seed=5)),
+        'shot_noise-gaussian': lambda: (lentil.detector.shot_noise, dict(img=R((3, 4), 13, 2000, 5000), method='gaussian', seed=5)),
+        'read_noise': lambda: (lentil.detector.read_noise, dict(img=R((3, 4), 13, 0, 50), electrons=3.0, seed=5)),
+        'charge_diffusion': lambda: (lentil.detector.charge_diffusion, dict(img=R((6, 6), 14), sigma=0.5)),
+        'dark_current': lambda: (lentil.detector.dark_current, dict(rate=20.5, shape=(3, 4), fpn_factor=0.2, seed=5)),
+        'dark_current-nofpn': lambda: (lentil.detector.dark_current, dict(rate=20.5, shape=(3, 4))),
+        'rule07': lambda: (lentil.detector.rule07_dark_current, dict(temperature=150, cutoff_wavelength=5e-6, pixelscale=18e-6, shape=(3, 4), fpn_factor=0.3, seed=5)),
+        'spectrum-add': lambda: (lambda a, b: a + b, dict(a=spec(), b=specum() * 1 if False else spec())),
+        'spectrum-mul-scalar': lambda: (lambda a: a * 2.5, dict(a=spec())),
+        'spectrum-sample': lambda: (lambda a, wave: a.sample(wave), dict(a=spec(), wave=np.array([420., 480., 650.]))),
+        'spectrum-integrate': lambda: (lambda a: a.integrate(420, 690, method='trapz'), dict(a=spec())),
+        'spectrum-bin': lambda: (lambda a, wave: a.bin(wave, interp_method='trapz'), dict(a=spec(), wave=np.array([450., 550., 650.]))),
+        'spectrum-asarray': lambda: (lambda a: a.asarray(), dict(a=spec())),
+        'spectrum-copy': lambda: (lambda a: a.copy(), dict(a=spec())),
+        'planck_radiance': lambda: (rad.planck_radiance, dict(wave=np.array([400., 500., 900.]), temp=5000., waveunit='nm', valueunit='photlam')),
+        'planck_exitance': lambda: (rad.planck_exitance, dict(wave=np.array([0.4, 0.5, 0.9]), temp=5000., waveunit='um', valueunit='flam')),
+        'vegaflux': lambda: (rad.vegaflux, dict(band='V', waveunit='um', valueunit='flam')),
+        'blackbody': lambda: (rad.Blackbody, dict(wave=np.array([400., 500., 900.]), temp=4000.)),
+        'path_transmission': lambda: (rad.path_transmission, dict(iterable=[rad.Material(transmission=spec(), emission=0.1), 0.5])),
+        'pupil-ctor': lambda: (lentil.Pupil, dict(amplitude=R((6, 5), 3), opd=R((6, 5), 4, -1, 1) * WL, mask=(R((6, 5), 5) > 0.6) * 0.7, pixelscale=DX, focal_length=Z)),
+        'plane-fit_tilt': lambda: (lambda p: p.fit_tilt(), dict(p=pupil())),
+        'plane-rescale': lambda: (lambda p: p.rescale(2), dict(p=pupil())),
+        'plane-rescale-identity': lambda: (lambda p: p.rescale(1), dict(p=pupil())),
+        'plane-copy': lambda: (lambda p: p.copy(), dict(p=pupil())),
+        'wavefront-mul': lambda: (lambda w, p: w * p, dict(w=lentil.Wavefront(WL, tilt=[1e-6, 0]), p=pupil())),
+        'wavefront-field': lambda: (lambda w: w.field, dict(w=wf())),
+        'wavefront-intensity': lambda: (lambda w: w.intensity, dict(w=wf())),
+        'propagate_dft': lambda: (lambda w: lentil.propagate_dft(w, DU, shape=(5, 5), oversample=2), dict(w=wf())),
+        'propagate_dft-mask': lambda: (lambda w, mask: lentil.propagate_dft(w, DU, shape=(5, 5), oversample=1, mask=mask), dict(w=wf(), mask=(R((5, 5), 6) > 0.9) * 1.0)),
+        'propagate_fft': lambda: (lambda w: lentil.propagate_fft(w, DU, shape=(4, 4), oversample=1), dict(w=wf())),
+        'scratch_shape': lambda: (lentil.scratch_shape, dict(wavelength=np.array([WL, 1.2 * WL]), dx=DX, du=DU, z=Z, oversample=2)),
+        'field-mul': lambda: ((lambda a, b: a * b), dict(a=lentil.field.Field(rm.generic_complex((3, 3), seed, 3), offset=[1, 0]), b=lentil.field.Field(rm.generic_complex((2, 3), seed, 4), offset=[0, 1]))),
+        'field-merge': lambda: (lentil.field.merge, dict(a=lentil.field.Field(rm.generic_complex((3, 3), seed, 3), offset=[0, 0]), b=lentil.field.Field(rm.generic_complex((2, 2), seed, 4), offset=[0, 0]))),
+    }
+    return C
+
+
+def _dig_any(obj):
+    if isinstance(obj, np.ndarray):
+        return h(obj)
+    if isinstance(obj, (list, tuple)):
+        return tuple(_dig_any(o) for o in obj)
+    if isinstance(obj, dict):
+        return tuple((k, _dig_any(v)) for k, v in sorted(obj.items()))
+    if hasattr(obj, 'wave') and hasattr(obj, 'value'):
+        return ('spectrum', dig_spec(obj))
+    if hasattr(obj, 'data') and isinstance(getattr(obj, 'data'), list):
+        return ('wavefront', dig_wf(obj))
+    if hasattr(obj, 'amplitude') and hasattr(obj, 'opd'):
+        return ('plane', dig_plane(obj))
+    if hasattr(obj, 'transmission'):
+        return ('material', _dig_any(obj.transmission), _dig_any(obj.emission))
+    if hasattr(obj, 'offset') and hasattr(obj, 'tilt'):
+        return ('field', h(np.asarray(obj.data)), tuple(np.asarray(obj.offset).tolist()))
+    return repr(obj)
+
+
+def chk_probe(case, acc, seed):
+    """one public call: inputs untouched, result independent of the inputs' memory, repeatable, and not a shared cached object"""
+    name = case['name']
+    cat = probe_catalogue(seed)
+    engine.reset_library_state()
+    np.seterr(**DEFAULT_ERRSTATE)
+    np.random.seed(77)
+    with warnings.catch_warnings():
+        warnings.simplefilter('ignore')
+        fn, args = cat[name]()
+        d0 = _dig_any(args)
+        g0, e0 = dig_rng(), np.geterr()
+        try:
+            r1 = fn(**args)
+        except Exception as e:
+            acc.violation(f'probe:{name}:raises:{type(e).__name__}', case, repr(e))
+            return
+        if _dig_any(args) != d0:
+            acc.violation(f'probe:{name}:modifies-input', case, f'{name} changed one of its arguments')
+        if np.geterr() != e0:
+            acc.violation(f'probe:{name}:numpy-errstate', case, 'numpy error state changed')
+            np.seterr(**DEFAULT_ERRSTATE)
+        if ('seed' in args) and dig_rng() != g0:
+            acc.violation(f'probe:{name}:global-rng', case, 'seeded call advanced the global generator')
+        keep = _dig_any(r1)
+        # the caller edits the result in place (it owns it): the next identical call, on fresh arguments, must not notice.
+        # (A result that shares memory with an argument is not judged: the statement is about what the library writes.)
+        for o in [a for a in _arrays_in(r1) if a.ndim >= 1 and a.size > 1]:
+            try:
+                o[...] = 7
+            except (ValueError, TypeError):
+                pass
+        fn2, args2 = cat[name]()
+        np.random.seed(12345)
+        r2 = fn2(**args2)
+        if _dig_any(r2) != keep:
+            acc.violation(f'probe:{name}:not-repeatable', case, 'the identical call returned something else after the first result was edited in place / under another global random state')
+    acc.cls('probes')
+    acc.case(case, outcome='probe')
+
+
 class _Silent(engine.Acc):
     def violation(self, key, case, msg):
         pass
@@ -606,9 +771,19 @@ def t_bfs(arg, acc):
     acc.cls('frozen-histories' if frozen else 'writable-histories', len(seen))
 
 
+def t_probe(arg, acc):
+    for name in arg['names']:
+        acc.transitions += 1
+        chk_probe({'kind': 'probe', 'name': name}, acc, arg['seed'])
+
+
 def run(tier, seed, acc, procs=None):
     depth = 4 if tier == 'quick' else 5
     tasks = []
+    engine.setup_lentil()
+    names = sorted(probe_catalogue(seed))
+    for i in range(0, len(names), 8):
+        tasks.append(('t_probe', {'seed': seed, 'names': names[i:i + 8]}))
     for frozen in (False, True):
         for first in EVENTS:
             tasks.append(('t_bfs', {'seed': seed, 'depth': depth, 'frozen': frozen, 'first': first}))
@@ -625,12 +800,14 @@ def run(tier, seed, acc, procs=None):
         'assumptions': ['spectra are compared physically (a unit conversion in place is not a mutation)',
                         'fit_tilt(inplace=True) is given a plane-owned OPD array first, so only the plane is its documented target',
                         'documented in-place targets: insert -> OUT, scratch= -> SCR, fit_tilt(inplace) -> plane'],
-        'require': {'writable-histories': 500, 'frozen-histories': 500, 'path-compared': 100, 'memo-keys': 40},
+        'require': {'probes': 60, 'writable-histories': 500, 'frozen-histories': 500, 'path-compared': 100, 'memo-keys': 40},
     }
 
 
 def replay(case, acc):
     seed = int(os.environ.get('VERIF_SEED', '0') or 0)
+    if case.get('kind') == 'probe':
+        return chk_probe(case, acc, seed)
     memo = {}
     # a history-dependence violation needs the history it disagreed with: that one is replayed first, sharing the memo
     for events in ([case['other']] if case.get('other') else []) + [case['events']]:
